@@ -80,6 +80,29 @@ Theorem C12_euler_extract_reproduces : forall (x00 x01 x10 x11 : C) apg amg beta
 Proof. exact euler_extract_reproduces. Qed.
 Print Assumptions C12_euler_extract_reproduces.
 
+(* the extraction as the code does it since /repo a129335: beta = 2 atan2(|x10|, |x11|), whose contract on SU(2) is
+   cos(beta/2) = |x11|, sin(beta/2) = |x10| (well conditioned at beta = 0 and pi, where acos loses half the digits);
+   the angles again reproduce every entry of x, with no condition that x10 or x11 be non-zero *)
+Theorem C12_euler_extract_reproduces_atan2 : forall (x00 x01 x10 x11 : C) apg amg beta,
+  x00 = Cconj x11 -> x01 = Copp (Cconj x10) ->
+  cos apg * Cmod x11 = fst x11 -> sin apg * Cmod x11 = snd x11 ->
+  cos amg * Cmod x10 = fst x10 -> sin amg * Cmod x10 = - snd x10 ->
+  cos (beta / 2) = Cmod x11 -> sin (beta / 2) = Cmod x10 ->
+  Dconj 1 (-1) (-1) (apg + amg) beta (apg - amg) = x00 /\
+  Dconj 1 1 (-1) (apg + amg) beta (apg - amg) = x01 /\
+  Dconj 1 (-1) 1 (apg + amg) beta (apg - amg) = x10 /\
+  Dconj 1 1 1 (apg + amg) beta (apg - amg) = x11.
+Proof. exact euler_extract_reproduces_atan2. Qed.
+Print Assumptions C12_euler_extract_reproduces_atan2.
+
+(* both extractions give the same angle on SU(2): the atan2 contract implies the acos contract *)
+Theorem C12_atan2_contract_is_acos_contract : forall (x00 x01 x10 x11 : C) beta,
+  x00 = Cconj x11 -> x01 = Copp (Cconj x10) ->
+  cos (beta / 2) = Cmod x11 -> sin (beta / 2) = Cmod x10 ->
+  cos beta = fst (x00 * x11 + x01 * x10)%C.
+Proof. exact atan2_contract_is_acos_contract. Qed.
+Print Assumptions C12_atan2_contract_is_acos_contract.
+
 (* Clebsch-Gordan (Racah closed form, exact radicals): normalisation and the two sign symmetries
    used by the table lookup, all j <= 4 *)
 Theorem C12_cg_normalised_le8 : forallb (fun j1 => forallb (fun j2 => norm_ok j1 j2) spins8) spins8 = true.
